@@ -937,7 +937,7 @@ Section Interp.
         | None =>
             match find_method P mro_depth c a with
             | Some f => if f_prop f then do r <- callf f [v] []; Ok (fst r)
-                        else Unsupported "bound method as a value"
+                        else Ok (PBuiltin ("$bound " ++ a))   (* a bound method as a value: may be stored, not called *)
             | None =>
                 match find_const P mro_depth c a with
                 | Some (EConst k) => Ok k
@@ -1310,7 +1310,14 @@ Section Interp.
     | SRaise x =>
         match x with
         | ECall (EName c) _ _ => ExcS c e
-        | EName c => ExcS c e
+        | EName c =>
+            if String.eqb c "$reraise" then
+              (* a bare [raise] inside a handler: the exception being handled *)
+              match lookup "$exc" e with
+              | Some (PStr c') => ExcS c' e
+              | _ => Exc "RuntimeError"
+              end
+            else ExcS c e
         | _ => Unsupported "raise"
         end
     | SAssert x => do (v, e1) <- eval e x; if truthy v then Ok (ONorm e1) else ExcS "AssertionError" e1
@@ -1337,7 +1344,9 @@ Section Interp.
   with exec_handlers (e : env) (c : string) (hs : handlers) {struct hs} : res out :=
     match hs with
     | Hnil => ExcS c e
-    | Hcons h b r => if exc_matches h c then exec_block e b else exec_handlers e c r
+    | Hcons h b r =>
+        (* the handler body knows which exception it handles (for a bare [raise]) *)
+        if exc_matches h c then exec_block (update "$exc" (PStr c) e) b else exec_handlers e c r
     end.
 
 End Interp.
